@@ -1,7 +1,7 @@
 #!/bin/bash
 # tools_run_all.sh [tier] [jobs] : run every claimed check on the current tree, summary at the end (development tool)
 cd "$(dirname "$0")"; T=${1:-quick}; J=${2:-3}; mkdir -p .work/logs
-ls harness/manifest | sed 's/\.json$//' | xargs -P $J -I{} bash -c "./check {} --tier $T > .work/logs/{}.$T.log 2>&1; echo \"{} exit=\$? \$(grep -c '^VIOLATION' .work/logs/{}.$T.log) violations, \$(grep -c '^KNOWN-FINDING' .work/logs/{}.$T.log) known; \$(tail -1 .work/logs/{}.$T.log)\""
+cat harness/released.txt | tr " " "\n" | xargs -P $J -I{} bash -c "./check {} --tier $T > .work/logs/{}.$T.log 2>&1; echo \"{} exit=\$? \$(grep -c '^VIOLATION' .work/logs/{}.$T.log) violations, \$(grep -c '^KNOWN-FINDING' .work/logs/{}.$T.log) known; \$(tail -1 .work/logs/{}.$T.log)\""
 python3-vt - <<'PY'
 import json,glob,jsonschema
 sch=json.load(open('/root/.vp/EVIDENCE.schema.json'))
